@@ -319,6 +319,18 @@ def curated_chains():
     out.append(('template-override-super', 'none', [TB, [('rule', 'Wrap', ['p'], ('alt', [('seq', [('str', '{'), ('ref', 'p'), ('str', '}')]),
                                                                                     ('call', 'super.Wrap', [('ref', 'p')])]))],
                                                     [('rule', 'Item', None, ('alt', [('str', 'd'), ('super', 'Item')]))]]))
+    # super.R handed on as an ARGUMENT (by position, by keyword) in the middle grammar of a chain: it
+    # denotes the parent of the grammar in which it is written, whoever parses
+    SA = [('rule', 'start', None, ('star', ('call', 'Wrap', [('ref', 'Item')]))),
+          ('rule', 'Wrap', ['p'], ('seq', [('str', '<'), ('ref', 'p'), ('str', '>')])),
+          ('rule', 'Item', None, ('alt', [('str', 'a'), ('str', 'b')]))]
+    SB = lambda arg: [('rule', 'Item', None, ('alt', [('str', 'c'), ('super', 'Item')])),
+                      ('rule', 'start', None, ('star', ('alt', [('right', ('str', '!'), ('call', 'Wrap', [arg])), ('call', 'Wrap', [('ref', 'Item')])])))]
+    SC = [('rule', 'Item', None, ('alt', [('str', 'd'), ('super', 'Item')]))]
+    out.append(('super-as-argument-2', 'none', [SA, SB(('super', 'Item'))]))
+    out.append(('super-as-argument-3', 'none', [SA, SB(('super', 'Item')), SC]))
+    out.append(('super-as-keyword-argument-3', 'none', [SA, SB(('kw', 'p', ('super', 'Item'))), SC]))
+    out.append(('super-in-compound-argument-3', 'none', [SA, SB(('alt', [('super', 'Item'), ('str', '-')])), SC]))
     out.append(('class-override', 'none', [A + [('rule', 'P', None, ('seq', [('str', '@'), ('ref', 'Pt')]))],
                                            [('class', 'Pt', None, [('field', 'x', ('ref', 'Item')), ('field', 'z', ('str', '^'))])]]))
     # an override that changes what the generator can know statically about the rule it replaces: a
